@@ -169,6 +169,33 @@ fn behaviour_pairs() -> Vec<(Vec<u8>, Vec<u8>)> {
     tails.sort();
     tails.dedup();
     let mut out = Vec::new();
+    // push immediates are never jump destinations, also when the push is cut short: a JUMP / JUMPI to every byte of
+    // the partial data (JUMPDEST bytes among them) must behave as the same jump into INVALID bytes
+    for n in [2usize, 3, 17, 32] {
+        for data in [vec![0x5bu8], vec![0x5b, 0x5b], vec![0xaa, 0x5b], vec![0x5b, 0x60, 0x01]] {
+            if data.len() >= n {
+                continue;
+            }
+            for conditional in [false, true] {
+                for k in 0..=data.len() {
+                    // head: [PUSH1 1] PUSH1 target JUMP/JUMPI STOP; tail: PUSHn data
+                    let head_len = if conditional { 6 } else { 4 };
+                    let target = (head_len + k) as u8;
+                    let mut head = Vec::new();
+                    if conditional {
+                        head.extend([0x60, 0x01]);
+                    }
+                    head.extend([0x60, target, if conditional { 0x57 } else { 0x56 }, 0x00]);
+                    let mut code = head.clone();
+                    code.push(0x5f + n as u8);
+                    code.extend(&data);
+                    let mut reference = head;
+                    reference.extend(std::iter::repeat(0xfe).take(1 + data.len()));
+                    out.push((code, reference));
+                }
+            }
+        }
+    }
     for head in behaviour_heads() {
         for t in &tails {
             let build = |tail: &[u8]| {
@@ -396,7 +423,7 @@ impl Check for C10 {
              push data never a JUMPDEST/instruction, boundary bytes preserved, unassigned bytes INVALID). Behaviour: every \
              unassigned byte and every PUSHn cut short (0, 1, n/2, n-1 immediate bytes present) placed at the end of 3 program heads \
              (empty, behind a store, on one of two paths) is analysed in both error modes and must give exactly the result of the \
-             same program with 0xfe in place of those bytes. \
+             same program with 0xfe in place of those bytes; likewise a JUMP / JUMPI to every byte of a truncated push (partial data containing JUMPDEST bytes). \
              non-trivial = input contains a PUSH at an instruction boundary; distinct by content (<=8 bytes) or by \
              (length, last 8 bytes)",
             if tier.thorough() { ", 3" } else { "" },
